@@ -6,7 +6,7 @@
     start-up sequence of server.Serve ([recover]).  [guards]: as in Properties_C04, every operation (completed or
     interrupted) meets its decidable guard in the store it starts in. *)
 From Coq Require Import List NArith Bool.
-From V Require Import Common.Bytes Store.Fs Store.Ops Store.ProofsAlist Store.ProofsNames Store.ProofsInv Store.ProofsOps Store.ProofsTop Store.ProofsMore Store.ProofsRedo Store.ProofsRedo2.
+From V Require Import Common.Bytes Store.Fs Store.Ops Store.ProofsAlist Store.ProofsNames Store.ProofsInv Store.ProofsOps Store.ProofsTop Store.ProofsMore Store.ProofsRedo Store.ProofsRedo2 Store.Corr Store.Pull2 Store.ProofsPull2.
 Import ListNotations.
 Open Scope N_scope.
 
@@ -237,3 +237,151 @@ Example C12_example_partial_hyps :
   has_unreadable (crash rd_sz s rd_o2 4) = false /\ has_unreadable (crash rd_sz s rd_o2 5) = true /\ has_unreadable (crash rd_sz s rd_o2 6) = false /\
   length (effects rd_sz s rd_o2) = 6%nat.
 Proof. vm_compute. repeat split. Qed.
+
+
+(** * The new pull path (Registry.Pull of server/internal/client/ollama over blob.DiskCache; Store/Pull2.v)
+
+    A layer is assembled from chunks in a scratch file [sha256-<h>.chunked]; every chunk that was fetched and verified
+    is recorded in the cache (a small blob) and skipped by later attempts; the scratch file takes the blob's name only
+    in the commit step, after the whole file hashed to the layer's digest.  [good] is the invariant of the extended
+    store: blob files hold what their name says or are empty (just created); every manifest that can be read has all
+    its layers present, intact and of the recorded size; a chunk whose record exists is in the scratch file of its
+    layer (or the layer is committed); no manifest uses a record as a layer; no old-version blob names are left.
+    [guard2] describes an honest registry (sizes as announced, every layer announced in at least one chunk). *)
+
+(** the invariant holds in the empty store *)
+Lemma C12_pull2_good_empty : forall size_of sv, good size_of sv (MkSt2 empty_store []).
+Proof.
+  intros. split.
+  - intros h c H. discriminate.
+  - intros n m H. discriminate.
+  - intros h cs i c Ha Hn Hrec. discriminate.
+  - intros k Hk. reflexivity.
+  - intros d [].
+Qed.
+
+(** Killed after any number of its effects, then restarted with or without pruning: every manifest that can be read
+    has all its layers, and the invariant holds again (so this composes with further pulls, crashes and restarts). *)
+Theorem C12_pull2_crash_sound : forall size_of emp sv s n k np,
+  size_of emp = 0 -> guard2 size_of sv = true -> good size_of sv s ->
+  let c := restart2 size_of np (crash2 size_of emp s n sv k) in
+  good size_of sv c /\
+  forall n' m, mget n' (base c) = Some (Readable m) -> man_okb size_of (base c) m = true.
+Proof.
+  intros size_of emp sv s n k np He Hg Hgd c.
+  assert (Hc : good size_of sv c).
+  { apply restart2_good; try assumption. destruct (pull2_ok size_of emp He sv Hg s n Hgd) as [[_ H] _]. apply H. }
+  split; [exact Hc | apply (g_c _ _ _ Hc)].
+Qed.
+Print Assumptions C12_pull2_crash_sound.
+
+(** The manifest is linked only after every layer is committed: at whatever point the pull is killed, if the name
+    already resolves to the manifest that is being pulled, all its layers are blobs of the right content and size. *)
+Theorem C12_pull2_commit_before_link : forall size_of emp sv s n k,
+  size_of emp = 0 -> guard2 size_of sv = true -> good size_of sv s ->
+  let c := crash2 size_of emp s n sv k in
+  forall n', mget n' (base c) = Some (Readable (s2_man sv)) -> man_okb size_of (base c) (s2_man sv) = true.
+Proof.
+  intros size_of emp sv s n k He Hg Hgd c n' Hm.
+  destruct (pull2_ok size_of emp He sv Hg s n Hgd) as [[_ H] _]. apply (g_c _ _ _ (H k) n' _ Hm).
+Qed.
+Print Assumptions C12_pull2_commit_before_link.
+
+(** Repeating the pull after a crash at any point and either kind of restart succeeds when the registry serves every
+    chunk: the name resolves to the served manifest and every layer is committed — in particular when every chunk
+    was already recorded before the crash (then the repeated pull fetches nothing and still commits). *)
+Theorem C12_pull2_redo : forall size_of emp sv s n k np,
+  size_of emp = 0 -> guard2 size_of sv = true -> good size_of sv s -> honest sv = true ->
+  let c := restart2 size_of np (crash2 size_of emp s n sv k) in
+  let f := exec2 size_of emp c n sv in
+  snd (pull2 size_of emp c n sv) = ROk /\
+  listed_as f (link_name (base c) n) (s2_man sv) = true /\
+  good size_of sv f /\
+  forall n' m, mget n' (base f) = Some (Readable m) -> man_okb size_of (base f) m = true.
+Proof.
+  intros size_of emp sv s n k np He Hg Hgd Hh c f.
+  destruct (C12_pull2_crash_sound size_of emp sv s n k np He Hg Hgd) as [Hc _]. fold c in Hc.
+  destruct (pull2_ok size_of emp He sv Hg c n Hc) as [HR [H1 H2]].
+  assert (Hf : good size_of sv f) by (apply (Rok2_now _ _ _ HR)).
+  split; [apply H2, Hh|]. split; [apply H1, H2, Hh|]. split; [exact Hf | apply (g_c _ _ _ Hf)].
+Qed.
+Print Assumptions C12_pull2_redo.
+
+(** Not vacuous, and the commit in the repeated pull is what the theorem is about: two layers (one in two chunks),
+    killed after the last chunk record of the first layer was written and before its commit; restart without pruning. *)
+Definition p2_sz (c : N) : N := match c with 9 => 0 | _ => c + 10 end.
+Definition p2_l1 := MkLayer MT_MODEL (MkDigest true 1) 11.
+Definition p2_cfg := MkLayer 8 (MkDigest true 2) 12.
+Definition p2_sv := MkServed2 (MkManifest p2_cfg [p2_l1]) 3 [(1, [MkChunk 4 true; MkChunk 5 true]); (2, [MkChunk 6 true])].
+Definition p2_n := MkName [104] [110] [109] [116].
+Definition p2_s0 := MkSt2 empty_store [].
+
+Example C12_pull2_example :
+  guard2 p2_sz p2_sv = true /\ honest p2_sv = true /\
+  length (effects2 p2_sz 9 p2_s0 p2_n p2_sv) = 15%nat /\
+  let c := restart2 p2_sz true (crash2 p2_sz 9 p2_s0 p2_n p2_sv 6) in
+  written c 1 = [1%nat; 0%nat] /\ has_rec p2_sz c 4 = true /\ has_rec p2_sz c 5 = true /\ bget 1 (base c) = None /\
+  effects2 p2_sz 9 c p2_n p2_sv =
+    [XCommit 1; XPut 2 0; XSetBlob 6 9; XSetBlob 6 6; XCommit 2; XSetBlob 3 9; XSetBlob 3 3;
+     XBase (ETruncMan p2_n); XBase (EWriteMan p2_n (Readable (s2_man p2_sv)))].
+Proof. vm_compute. repeat split. Qed.
+
+(** the variant that skips the commit of a layer for which nothing had to be fetched (the regression this stage was
+    built to catch) links a manifest whose first layer exists only as a scratch file *)
+Definition do_layer_lazy (size_of : N -> N) (emp : N) (sv : served2) (r : run2) (l : layer) : run2 * bool :=
+  let h := dhex (ldg l) in
+  if has_blob size_of (rs2 r) h (lsz l) then (r, true)
+  else
+    let (r1, failed) := do_chunks size_of emp r h (chunks_of sv h) 0%nat false in
+    if failed then (r1, false)
+    else if Nat.eqb (length (rt2 r1)) (length (rt2 r)) then (r1, true)
+    else if covers (written (rs2 r1) h) (length (chunks_of sv h)) then (emit2 r1 (XCommit h), true)
+    else (r1, false).
+
+Example C12_pull2_lazy_commit_refuted :
+  let c := restart2 p2_sz true (crash2 p2_sz 9 p2_s0 p2_n p2_sv 6) in
+  let (r1, ok1) := do_layer_lazy p2_sz 9 p2_sv (init2 c) p2_l1 in
+  let (r2, ok2) := do_layer_lazy p2_sz 9 p2_sv r1 p2_cfg in
+  ok1 && ok2 = true /\ man_okb p2_sz (base (rs2 r2)) (s2_man p2_sv) = false.
+Proof. vm_compute. split; reflexivity. Qed.
+
+
+(** "... and leaves the store as an uninterrupted run would": in full, for the new pull path *)
+Definition C12_pull2_redo_same_full : Prop := forall size_of emp sv s n k np,
+  size_of emp = 0 -> guard2 size_of sv = true -> good size_of sv s -> honest sv = true ->
+  let c := restart2 size_of np (crash2 size_of emp s n sv k) in
+  forall n0, mget n0 (base (exec2 size_of emp c n sv)) = mget n0 (base (exec2 size_of emp s n sv)).
+
+(** It does not hold: DiskCache.Link replaces a manifest of other content by remove, create, write.  When the name is
+    stored in another letter case than the request spells it (h/n/m:t stored, h/N/M:t pulled) the uninterrupted pull
+    rewrites the stored file; killed between the remove and the create, the repeated pull finds no file to match
+    and links the name as the request spells it.  The model resolves either way (names are compared case-insensitively);
+    what differs is the spelling under which it is listed.  Known finding C12-pull2-relink-respelled. *)
+Definition p2_N := MkName [104] [78] [77] [116].
+Definition p2_s1 := MkSt2 (MkStore [(p2_n, Readable (MkManifest (MkLayer 8 (MkDigest true 21) 31) [MkLayer MT_MODEL (MkDigest true 20) 30]))]
+                                   [(20, 20); (21, 21)] []) [].
+
+Theorem C12_pull2_redo_same_refuted : ~ C12_pull2_redo_same_full.
+Proof.
+  intros H. specialize (H p2_sz 9 p2_sv p2_s1 p2_N 14%nat false eq_refl eq_refl).
+  assert (Hg : good p2_sz p2_sv p2_s1) by (apply good_b_sound; vm_compute; reflexivity).
+  specialize (H Hg eq_refl p2_n). vm_compute in H. discriminate.
+Qed.
+Print Assumptions C12_pull2_redo_same_refuted.
+
+(** What holds: both runs list the served manifest, the uninterrupted one under the name as it is stored before, the
+    repeated one under the name as it is stored after the crash and the restart; these are the same name unless the
+    crash fell between Link's remove and create while the request spells the name in another letter case than the
+    store does (decidable: [link_name] on the two stores). *)
+Theorem C12_pull2_redo_same_partial : forall size_of emp sv s n k np,
+  size_of emp = 0 -> guard2 size_of sv = true -> good size_of sv s -> honest sv = true ->
+  let c := restart2 size_of np (crash2 size_of emp s n sv k) in
+  link_name (base c) n = link_name (base s) n ->
+  listed_as (exec2 size_of emp c n sv) (link_name (base s) n) (s2_man sv) = true /\
+  listed_as (exec2 size_of emp s n sv) (link_name (base s) n) (s2_man sv) = true.
+Proof.
+  intros size_of emp sv s n k np He Hg Hgd Hh c En. split.
+  - rewrite <- En. apply (C12_pull2_redo size_of emp sv s n k np He Hg Hgd Hh).
+  - destruct (pull2_ok size_of emp He sv Hg s n Hgd) as [_ [H1 H2]]. apply H1, H2, Hh.
+Qed.
+Print Assumptions C12_pull2_redo_same_partial.
